@@ -363,7 +363,13 @@ func (e *Engine) appendSlice(s *State, a, b *SliceV, t types.Type, site string) 
 		}
 		r := Concat2(ab, bb)
 		s.allocs = append(s.allocs, AllocRec{Size: Add(MulC(r.Len, 2), CI(64)), Site: site})
-		return &SliceV{Obj: s.newObj(&Obj{Kind: kBytes, B: r, ET: el}), Off: CI(0), Len: r.Len, Cap: r.Len}
+		nid := s.newObj(&Obj{Kind: kBytes, B: r, ET: el})
+		if a.Obj != 0 && !a.Cap.IsConst() {
+			// the capacity is not known: the append may well have happened in place, in which case the result is
+			// the same memory as a (recorded as possible sharing; decided by the native replay)
+			s.aliasNote(nid, a.Obj)
+		}
+		return &SliceV{Obj: nid, Off: CI(0), Len: r.Len, Cap: r.Len}
 	}
 	var out []Value
 	for _, sl := range []*SliceV{a, b} {
@@ -661,6 +667,8 @@ func (e *Engine) dispatch(s *State, f *Frame, fn *ssa.Function, args []Value, bi
 		sb := &Bytes{Len: sp}
 		sb.At = func(i *Term) *Term { return Select(arr, i) }
 		id := s.newObj(&Obj{Kind: kBytes, B: sb})
+		_, bid := bufObj(s, args[0])
+		s.aliasNote(id, bid) // it IS the buffer's memory: whatever keeps pointing into it shares memory with the buffer
 		set(&SliceV{Obj: id, Off: CI(0), Len: CI(0), Cap: sp})
 	case "(*bytes.Buffer).Bytes":
 		o, id := bufObj(s, args[0])
@@ -1229,7 +1237,25 @@ func (e *Engine) forkN(s *State, conds []*Term, apply func(st *State, i int)) []
 }
 
 func (s *State) aliasNote(a, b int) {
+	// transitive: a also shares with everything b is known to share with
+	var more []int
+	for _, n := range s.notes {
+		if strings.HasPrefix(n, "alias:") {
+			var x, y int
+			fmt.Sscanf(n, "alias:%d:%d", &x, &y)
+			if x == b {
+				more = append(more, y)
+			} else if y == b {
+				more = append(more, x)
+			}
+		}
+	}
 	s.notes = append(s.notes, fmt.Sprintf("alias:%d:%d", a, b))
+	for _, m := range more {
+		if m != a {
+			s.notes = append(s.notes, fmt.Sprintf("alias:%d:%d", a, m))
+		}
+	}
 }
 
 func (e *Engine) unknownCallee(s *State, f *Frame, fn *ssa.Function, args []Value, x *ssa.Call, site string) []*State {
